@@ -282,26 +282,47 @@ func anchoredBoth(re *syntax.Regexp) bool {
 
 func c18R2(p *core.Prog, r *core.Report) {
 	const rule = "C18.R2"
-	r.Rule(rule, "allow/deny filters match whole tags: every regexp.Compile of a filter takes a pattern that is anchored at both ends in every alternative (pattern instantiated with sample filters and parsed with regexp/syntax); both the allow and the deny list are consulted", 3)
+	r.Rule(rule, "allow/deny filters match whole tags: every regexp.Compile of a filter takes a pattern that is anchored at both ends in every alternative (pattern instantiated with sample filters and parsed with regexp/syntax); both the allow and the deny list are consulted", 2)
 	// positive example for the anchoring oracle
 	bad, _ := syntax.Parse("^(a)|(b)|(c)$", syntax.Perl)
 	good, _ := syntax.Parse("^(?:(?:a)|(?:b))$", syntax.Perl)
 	plain, _ := syntax.Parse("^a$", syntax.Perl)
 	r.Check(bad != nil && good != nil && plain != nil && !anchoredBoth(bad) && anchoredBoth(good) && anchoredBoth(plain), rule, "checker", "anchoring oracle", "-",
 		"the oracle rejects ^(a)|(b)|(c)$ (anchors bind to the outer alternatives only) and accepts ^a$ and ^(?:(?:a)|(?:b))$")
-	fn := p.Func("cmd/regsync", "filterList")
+	// the filter functions, by role: the functions of cmd/regsync that are given an allow/deny set (as
+	// parameter or receiver); everything they reach inside the package is in scope
+	var fn *ssa.Function
+	scope := map[*ssa.Function]bool{}
+	for _, f := range pkgFuncs(p, "cmd/regsync") {
+		if f.Parent() != nil {
+			continue
+		}
+		takes := false
+		for _, pr := range f.Params {
+			if core.IsModNamed(pr.Type(), "cmd/regsync", "AllowDeny") {
+				takes = true
+			}
+		}
+		if !takes {
+			continue
+		}
+		if fn == nil {
+			fn = f
+		}
+		for g := range p.ReachSet(f, core.ReachQuery{Prune: func(f *ssa.Function) bool {
+			pk := core.FuncPkg(f)
+			return pk == nil || pk.Path() != modPath("cmd/regsync")
+		}}) {
+			scope[g] = true
+		}
+	}
 	if fn == nil {
-		r.MissingAnchor(rule, "cmd/regsync.filterList")
+		r.MissingAnchor(rule, "a function of cmd/regsync that takes an AllowDeny filter set")
 		return
 	}
-	// all Compile calls reachable from filterList inside cmd/regsync
-	scope := p.ReachSet(fn, core.ReachQuery{Prune: func(f *ssa.Function) bool {
-		pk := core.FuncPkg(f)
-		return pk == nil || pk.Path() != modPath("cmd/regsync")
-	}})
 	n := 0
 	lab := map[string]labeler{}
-	for f := range scope {
+	for _, f := range sortedFuncs(scope) {
 		if pk := core.FuncPkg(f); pk == nil || pk.Path() != modPath("cmd/regsync") {
 			continue
 		}
@@ -361,20 +382,34 @@ func c18R2(p *core.Prog, r *core.Report) {
 func c18R3(p *core.Prog, r *core.Report) {
 	const rule = "C18.R3"
 	r.Rule(rule, "backup before overwrite: the backup copy's source is the target reference, it is behind the 'backup configured' test and every path from that test to the overwriting copy passes it", 2)
-	fn := p.Method("cmd/regsync", "rootOpts", "processRef")
+	// by role: the function of cmd/regsync with a source and a target reference that copies images
+	// (the overwriting copy and the backup copy live in the same function)
+	var fn *ssa.Function
+	var copies []*ssa.Call
+	for _, f := range pkgFuncs(p, "cmd/regsync") {
+		var cs []*ssa.Call
+		core.Calls(f, func(c ssa.CallInstruction) {
+			if cal := core.Callee(c); cal != nil && core.IsModMethod(cal, ".", "RegClient", "ImageCopy") {
+				if call, ok := c.(*ssa.Call); ok {
+					cs = append(cs, call)
+				}
+			}
+		})
+		nRef := 0
+		for _, pr := range f.Params {
+			if core.IsModNamed(pr.Type(), "types/ref", "Ref") {
+				nRef++
+			}
+		}
+		if len(cs) >= 1 && nRef == 2 && len(cs) > len(copies) {
+			fn, copies = f, cs
+		}
+	}
 	if fn == nil {
-		r.MissingAnchor(rule, "cmd/regsync.(*rootOpts).processRef")
+		r.MissingAnchor(rule, "a function of cmd/regsync with source and target references that calls ImageCopy")
 		return
 	}
 	fname := p.FuncName(fn)
-	var copies []*ssa.Call
-	core.Calls(fn, func(c ssa.CallInstruction) {
-		if cal := core.Callee(c); cal != nil && core.IsModMethod(cal, ".", "RegClient", "ImageCopy") {
-			if call, ok := c.(*ssa.Call); ok {
-				copies = append(copies, call)
-			}
-		}
-	})
 	// refs: the two Ref parameters (source, target)
 	var refs []*ssa.Parameter
 	for _, pr := range fn.Params {
